@@ -616,14 +616,36 @@ Fixpoint snames_eqb (a b : list sname) : bool :=
   | _, _ => false
   end.
 
-(* a type without one-bit sized or tuple components and without empty tuples (every shipped
-   sized type has at least 2 bits): the bit names of such a type are never a bare name *)
-Fixpoint ty_ok (t : ty) : bool :=
+(* a type without an EMPTY tuple inside.  (The code counts `Tuple[()]` as ONE bit in
+   _type_size while it has no bit names: UNMODELLED; the converter never sends one.) *)
+Fixpoint ty_ne (t : ty) : bool :=
+  match t with
+  | TTuple l => match l with [] => false | _ => true end && forallb ty_ne l
+  | _ => true
+  end.
+
+(* ... and whose sized components have at least 2 bits (every shipped sized type has): a name of
+   such a type never evaluates to a bare Symbol (Arg.to_exp) unless it is a bool or a tuple *)
+Fixpoint ty_good (t : ty) : bool :=
   match t with
   | TBool => true
-  | TTuple l => forallb ty_ok l && (2 <=? ty_size t)%nat
+  | TTuple l => match l with [] => false | _ => true end && forallb ty_good l
   | _ => (2 <=? ty_size t)%nat
   end.
+
+(* an expression without an empty tuple `()` *)
+Fixpoint pexp_ne (e : pexp) : bool :=
+  match e with
+  | ETuple l => match l with [] => false | _ => true end && forallb pexp_ne l
+  | EConstTup l => match l with [] => false | _ => true end
+  | EBoolOp _ l => forallb pexp_ne l
+  | EUn _ a | EInt a | EFloat a => pexp_ne a
+  | EIf c t f => pexp_ne c && pexp_ne t && pexp_ne f
+  | ECmp _ a b | EBin _ a b => pexp_ne a && pexp_ne b
+  | _ => true
+  end.
+Definition stmt_ne (s : pstmt) : bool :=
+  match s with SAssign _ e | SReturn e | SExpr e => pexp_ne e | SRaise => true end.
 
 (* no definition reads a symbol that an EARLIER definition of the same list assigns:
    evaluating the list in order is then evaluating it simultaneously *)
@@ -644,35 +666,41 @@ Definition fresh_for (num : sname -> nat) (G : env) (x : ident) (ds : defs) : bo
   forallb (fun yb => Nat.eqb (fst yb) x
                      || forallb (fun s => negb (existsb (Nat.eqb (num s)) (map fst ds))) (snd (snd yb))) G.
 
-(* binding the translated value r to the name x: its type has no one-bit component, the
-   definitions can be read simultaneously, assign distinct symbols, and clobber no other name *)
-Definition res_guard (num : sname -> nat) (G : env) (x : ident) (r : tres) : bool :=
+(* binding the translated value r to the name x.  The side condition of the soundness theorems
+   is seq_ok alone (full = false).  With full = true also: the assigned symbol NUMBERS are
+   distinct and clobber no other binding — consequences of an injective numbering (P_Texp),
+   evaluated by the correspondence run on the numbering table it uses *)
+Definition res_guard_g (full : bool) (num : sname -> nat) (G : env) (x : ident) (r : tres) : bool :=
   let ds := numbered num (decompose [x] (snd r)) in
-  ty_ok (fst r) && seq_ok ds && nodupb (map fst ds) && fresh_for num G x ds.
+  seq_ok ds && (if full then nodupb (map fst ds) && fresh_for num G x ds else true).
 
-Definition stmt_guard (num : sname -> nat) (G : env) (rt : ty) (s : pstmt) : bool :=
+Definition stmt_guard_g (full : bool) (num : sname -> nat) (G : env) (rt : ty) (s : pstmt) : bool :=
   match s with
   | SAssign x e =>
-      match trans_exp num G e with Some r => res_guard num G x (regroup_value r) | None => true end
+      match trans_exp num G e with Some r => res_guard_g full num G x (regroup_value r) | None => true end
   | SReturn e =>
       match obind (trans_exp num G e) (ret_coerce rt) with
-      | Some r => res_guard num G ret_id (regroup_value r)
+      | Some r => res_guard_g full num G ret_id (regroup_value r)
       | None => true
       end
   | SExpr e => true
   | SRaise => true
   end.
 
-Fixpoint body_guard (num : sname -> nat) (G : env) (rt : ty) (body : list pstmt) : bool :=
+Fixpoint body_guard_g (full : bool) (num : sname -> nat) (G : env) (rt : ty) (body : list pstmt) : bool :=
   match body with
   | [] => true
   | s :: r =>
-      stmt_guard num G rt s &&
+      stmt_guard_g full num G rt s &&
       match trans_stmt num G rt s with
-      | Some dg => body_guard num (snd dg) rt r
+      | Some dg => body_guard_g full num (snd dg) rt r
       | None => true
       end
   end.
+
+Definition res_guard := res_guard_g false.
+Definition stmt_guard := stmt_guard_g false.
+Definition body_guard := body_guard_g false.
 
 (* ------------------------------------------------------------------ *)
 (* the typed reference evaluator                                       *)
